@@ -319,7 +319,35 @@ def prov_map(ctx):
 
 
 def render_geom(ctx):
-    """RENDER-GEOM: bitmap() draws the finder, clock tracks and alignment bars at the positions the parser reads them from"""
+    """RENDER-GEOM: the polynomial shape analysis of bitmap() (cheap); whenever it cannot recognise something - and always in the
+    thorough tier - the decision is taken by rendering bitmap() symbolically for all 48 sizes (render_exec), which subsumes
+    every obligation of the shape analysis (dimensions, pattern stores, data positions)."""
+    from .core import AnchorMissing
+    try:
+        obs = _render_shape(ctx)
+    except (AnchorMissing, KeyError, IndexError, TypeError) as ex:
+        obs = [Ob("RENDER-GEOM", "shape", False, "the store shapes of bitmap() are not recognised (%s)" % (str(ex)[:120],))]
+    failed = [o for o in obs if not o.ok and not o.info]
+    if not failed:
+        return obs
+    exec_ok, exec_det = render_exec(ctx)
+    if not exec_ok:
+        if not any(o.key.endswith(":draw:exec") for o in obs):
+            obs.append(Ob("RENDER-GEOM", "draw:exec", False, "bitmap() rendered symbolically for every symbol size: " + str(exec_det)))
+        return obs
+    out = []
+    for o in obs:
+        if not o.ok and not o.info:
+            out.append(Ob("RENDER-GEOM", o.key.split(":", 1)[1], True, o.what + " (shape not recognised; decided by the symbolic rendering of all 48 sizes)", site=o.site))
+        else:
+            out.append(o)
+    if not any(o.key.endswith(":draw:exec") for o in out):
+        out.append(Ob("RENDER-GEOM", "draw:exec", True, "bitmap() rendered symbolically for every symbol size: " + str(exec_det)))
+    return out
+
+
+def _render_shape(ctx):
+    """bitmap() draws the finder, clock tracks and alignment bars at the positions the parser reads them from"""
     r = "RENDER-GEOM"
     f = ctx.facts()
     fn = "placement::MatrixMap::<M>::bitmap"
@@ -532,6 +560,15 @@ def render_exec(ctx, sizes=None):
     ISO finder / alignment geometry (solid left and bottom bar and clock top and right track of every region) around the
     content modules in row-major order.  The function does not branch on module values, so one run per size decides all
     contents of that size.  Returns (ok, detail)."""
+    if sizes is None and getattr(ctx, "_render_exec", None) is not None:
+        return ctx._render_exec
+    res = _render_exec(ctx, sizes)
+    if sizes is None:
+        ctx._render_exec = res
+    return res
+
+
+def _render_exec(ctx, sizes=None):
     f = ctx.facts()
     fn = "placement::MatrixMap::<M>::bitmap"
     b = f.thir.get(fn)
